@@ -31,8 +31,9 @@ import (
 
 // C20: remote-write client and handler (real code: exp/api/remote).
 //
-// write   case := (0 cfg ty kind script impl)
-//   cfg := (min_ns max_ns max_retries retry429) ; kind := 0 vt | 1 gogo | 2 generic | 3 not-proto | 4 marshal-error
+// write   case := (0 opts ty kind script impl)
+//   opts := the SET of retry-related API options, canonical order: (0 min_ns max_ns max_retries) WithAPIBackoff | (1) WithAPINoRetryOnRateLimit
+//     (the API value is built from a seeded subset of {backoff, no-retry, path, logger, http client} in a seeded ORDER) ; kind := 0 vt | 1 gogo | 2 generic | 3 not-proto | 4 marshal-error
 //   script := list (outcome cancel) ; outcome := (0) transport fault (connection drop, or - caller's context alive - a
 //     client-side timeout / an error wrapping context.DeadlineExceeded, context.Canceled, os.ErrDeadlineExceeded, net timeout) | (1) body-error | (2 status samples hist exem retry_after ra_date?)
 //   cancel := 0 none | 1 before send | 2 after response | 3 in the backoff wait
@@ -155,18 +156,21 @@ type obsReq struct {
 }
 
 type wcase struct {
-	key      string
-	min, max time.Duration
-	maxRetr  int
-	retry429 bool
-	ty       string
-	kind     int
-	script   []attemptSpec
-	msg      any
-	expected []byte
-	timing   bool
-	cliTmo   bool // use the http.Client with its own Timeout
-	tags     []string
+	key                          string
+	min, max                     time.Duration
+	maxRetr                      int
+	retry429                     bool
+	ty                           string
+	kind                         int
+	script                       []attemptSpec
+	msg                          any
+	expected                     []byte
+	timing                       bool
+	cliTmo                       bool   // use the http.Client with its own Timeout
+	noBackoff, noPath, nopLogger bool   // option subset: WithAPIBackoff / WithAPIPath omitted, a do-nothing WithAPILogger added
+	order                        uint64 // seed of the order in which the options are passed to NewAPI
+	path                         string // request path seen by the server
+	tags                         []string
 
 	mu        sync.Mutex
 	srvIdx    int
@@ -209,6 +213,13 @@ func (s *scriptServer) ServeHTTP(w http.ResponseWriter, r *http.Request) {
 		return
 	}
 	c := v.(*wcase)
+	c.mu.Lock()
+	if c.path == "" || c.path == r.URL.Path {
+		c.path = r.URL.Path
+	} else {
+		c.path = "MIXED"
+	}
+	c.mu.Unlock()
 	o := obsReq{ctype: r.Header.Get("Content-Type"), cenc: strings.Join(r.Header.Values("Content-Encoding"), ","),
 		version: r.Header.Get("X-Prometheus-Remote-Write-Version"), bodyOK: bodyOK(c.kind, body, c.expected, c.msg)}
 	if vs := r.Header.Values("Retry-Attempt"); len(vs) > 0 {
@@ -496,7 +507,22 @@ func genWriteCase(r *emit.Rng, idx int) *wcase {
 	c.msg, c.expected = mkMsg(c.kind, uint64(idx), padBytes(r, size, r.Chance(1, 3)))
 	c.tags = append(c.tags, "path:"+[]string{"vtproto", "gogo", "generic", "not-proto", "marshal-error"}[c.kind], "type:"+map[string]string{v1Name: "v1", v2Name: "v2"}[c.ty])
 	n := []int{0, 0, 1, 1, 2, 3, 4, 6}[r.Intn(8)]
+	c.noPath = r.Chance(1, 4)
+	c.nopLogger = r.Chance(1, 3)
+	if r.Chance(1, 10) {
+		// WithAPIBackoff omitted: the default backoff (1 s .. 10 s, 10 retries) applies, so the script must not wait:
+		// one answer that ends the call (a 429 does when retry-on-429 is disabled)
+		c.noBackoff = true
+		c.min, c.max, c.maxRetr = time.Second, 10*time.Second, 10
+		n = 0
+		c.tags = append(c.tags, "opts:default-backoff")
+	}
 	c.script = genScript(r, n, &c.tags)
+	if c.noBackoff && !c.retry429 && r.Chance(1, 2) {
+		genResp(r, 429, &c.script[0])
+		c.tags = append(c.tags, "outcome:429")
+	}
+	c.order = orderFor(c)
 	// cancellation
 	switch r.Intn(12) {
 	case 0:
@@ -517,8 +543,74 @@ func genWriteCase(r *emit.Rng, idx int) *wcase {
 			c.tags = append(c.tags, "cancel:in-wait")
 		}
 	}
+	if c.noBackoff {
+		// no wait may happen under the default backoff
+		for i := range c.script {
+			c.script[i].cancel = 0
+		}
+	}
+	pos := map[string]int{}
+	for i, o := range optionNames(c, false) {
+		pos[o] = i
+	}
+	if !c.retry429 && !c.noBackoff {
+		if pos["no-retry-429"] < pos["backoff"] {
+			c.tags = append(c.tags, "opts:no-retry-before-backoff")
+		} else {
+			c.tags = append(c.tags, "opts:backoff-before-no-retry")
+		}
+	}
 	return c
 }
+
+// orderFor: the option order is a function of the configuration (cases of equal configuration share one API value,
+// so that its pooled buffers are reused) and of nothing else; over the ~200 configurations all orders occur.
+func orderFor(c *wcase) uint64 {
+	h := uint64(c.min)*1000003 ^ uint64(c.max)*10007 ^ uint64(c.maxRetr+7)*101
+	if c.retry429 {
+		h ^= 0x9e3779b9
+	}
+	if c.noBackoff {
+		h ^= 0x51ed27
+	}
+	if c.noPath {
+		h ^= 0x7f4a7c15
+	}
+	if c.nopLogger {
+		h ^= 0x2545f491
+	}
+	return h
+}
+
+// optionNames lists the options of the case's API value in the order they are passed to NewAPI.
+func optionNames(c *wcase, hook bool) []string {
+	names := []string{"client"}
+	if !c.noBackoff {
+		names = append(names, "backoff")
+	}
+	if !c.retry429 {
+		names = append(names, "no-retry-429")
+	}
+	if !c.noPath {
+		names = append(names, "path")
+	}
+	if hook || c.nopLogger {
+		names = append(names, "logger")
+	}
+	r := emit.NewRng(c.order)
+	for i := len(names) - 1; i > 0; i-- {
+		j := r.Intn(i + 1)
+		names[i], names[j] = names[j], names[i]
+	}
+	return names
+}
+
+type nopHandler struct{}
+
+func (nopHandler) Enabled(context.Context, slog.Level) bool  { return false }
+func (nopHandler) Handle(context.Context, slog.Record) error { return nil }
+func (n nopHandler) WithAttrs([]slog.Attr) slog.Handler      { return n }
+func (n nopHandler) WithGroup(string) slog.Handler           { return n }
 
 func timingCases(base int) []*wcase {
 	var out []*wcase
@@ -549,19 +641,30 @@ func timingCases(base int) []*wcase {
 }
 
 type apiKey struct {
-	min, max time.Duration
-	maxRetr  int
-	retry429 bool
+	min, max                               time.Duration
+	maxRetr                                int
+	retry429, noBackoff, noPath, nopLogger bool
 }
 
 func newAPI(url string, c *wcase, client *http.Client, hook bool) *remote.API {
-	opts := []remote.APIOption{remote.WithAPIHTTPClient(client), remote.WithAPIPath("/w"),
-		remote.VerifWithBackoff(c.min, c.max, c.maxRetr)}
-	if !c.retry429 {
-		opts = append(opts, remote.WithAPINoRetryOnRateLimit())
-	}
-	if hook {
-		opts = append(opts, remote.WithAPILogger(slog.New(waitHook{c})))
+	var opts []remote.APIOption
+	for _, n := range optionNames(c, hook) {
+		switch n {
+		case "client":
+			opts = append(opts, remote.WithAPIHTTPClient(client))
+		case "backoff":
+			opts = append(opts, remote.VerifWithBackoff(c.min, c.max, c.maxRetr))
+		case "no-retry-429":
+			opts = append(opts, remote.WithAPINoRetryOnRateLimit())
+		case "path":
+			opts = append(opts, remote.WithAPIPath("/w"))
+		case "logger":
+			if hook {
+				opts = append(opts, remote.WithAPILogger(slog.New(waitHook{c})))
+			} else {
+				opts = append(opts, remote.WithAPILogger(slog.New(nopHandler{})))
+			}
+		}
 	}
 	api, err := remote.NewAPI(url, opts...)
 	if err != nil {
@@ -608,8 +711,14 @@ func (c *wcase) term() string {
 	code, arg := classify(c.err)
 	impl := emit.Tup(emit.L(rq), emit.Tup(emit.I(code), emit.I(arg)),
 		emit.Tup(emit.I(c.stats.Samples), emit.I(c.stats.Histograms), emit.I(c.stats.Exemplars)), emit.L(gaps))
-	cfg := emit.Tup(emit.Z(int64(c.min)), emit.Z(int64(c.max)), emit.I(c.maxRetr), emit.B(c.retry429))
-	return emit.C(0, cfg, emit.S(c.ty), emit.I(c.kind), emit.L(sc), impl)
+	var ol []string
+	if !c.noBackoff {
+		ol = append(ol, emit.C(0, emit.Z(int64(c.min)), emit.Z(int64(c.max)), emit.I(c.maxRetr)))
+	}
+	if !c.retry429 {
+		ol = append(ol, emit.C(1))
+	}
+	return emit.C(0, emit.L(ol), emit.S(c.ty), emit.I(c.kind), emit.L(sc), impl)
 }
 
 func runWriteStream(c *cli.Ctx, rng *emit.Rng, direct *[]map[string]interface{}) error {
@@ -646,7 +755,7 @@ func runWriteStream(c *cli.Ctx, rng *emit.Rng, direct *[]map[string]interface{})
 				} else if cs.cliTmo {
 					api = newAPI(ts.URL, cs, tmoClient, false)
 				} else {
-					k := apiKey{cs.min, cs.max, cs.maxRetr, cs.retry429}
+					k := apiKey{cs.min, cs.max, cs.maxRetr, cs.retry429, cs.noBackoff, cs.noPath, cs.nopLogger}
 					apiMu.Lock()
 					api = apis[k]
 					if api == nil {
@@ -687,6 +796,13 @@ func runWriteStream(c *cli.Ctx, rng *emit.Rng, direct *[]map[string]interface{})
 	close(jobs)
 	wg.Wait()
 	for i, cs := range cases {
+		wantPath := "/w"
+		if cs.noPath {
+			wantPath = "/api/v1/write"
+		}
+		if cs.path != "" && cs.path != wantPath {
+			*direct = append(*direct, map[string]interface{}{"index": i, "what": "request path " + cs.path + ", configured " + wantPath})
+		}
 		if cs.overflow {
 			*direct = append(*direct, map[string]interface{}{"index": i, "what": "Write kept sending after the scripted terminal answer"})
 		}
